@@ -228,6 +228,17 @@ def rule_castle_pair(ctx):
             assigns.append((bi, fp[-1], status_of(sym.rvalue(s["rv"]))))
     used = set()
     seen = {}
+    # the same clause decided case by case when the function is not twelve guarded sites (a revocation helper taking the
+    # kind found by a lookup, ...): every case, with all / none / exactly one of the rights there
+    readable = len(assigns) >= 12 and all(k for _b, _t, k in toggles)
+    if not readable:
+        from . import castlecases
+        n, bad, und = castlecases.pairing(ix, b)
+        if n >= 1260 * 6 and not und:
+            ctx.check(not bad, "%s:pairing-by-cases" % CASTLE_CHECKS,
+                      "in each of %d cases (mover, start, victim, square; all / none / exactly one right there) every path toggles exactly the castling words of the rights it takes away" % n, b.where(0),
+                      bad_what="toggles and revocations diverge in %d case(s), e.g. (case, rights there, rights taken away, words toggled) = %s" % (len(bad), bad[:2]))
+            return
     for ab, fld, st in assigns:
         cons = C.constraints_for(ix, b, sym, ab)
         key = c15_dedup(seen, "%s:revoke:%s" % (CASTLE_CHECKS, fld))
